@@ -472,6 +472,10 @@ func generate(o *cq.Opts, r *rand.Rand, add func(c12Case, ...string)) {
 			// rtpfb history
 			add(histCase(r, kind, n, 20+r.Intn(80), true), "twcc", "feedback")
 			add(histCase(r, kind, n, 20+r.Intn(80), false), "ccfb", "feedback")
+			add(histRtxCase(r, kind, n, 10+r.Intn(40), false, true), "ccfb", "feedback", "retransmission", "lag")
+			add(histRtxCase(r, kind, n, 10+r.Intn(40), k%2 == 1, k%2 == 1), "feedback", "retransmission")
+			// flexfec batches that are not consecutive / no repair packets asked for
+			add(ffSeqCase(r, kind, int64(2+r.Intn(9)), int64(r.Intn(3))), "sequence")
 		}
 		add(seqCase(r, compRB, []int64{1024}, "inorder", 1500, 4, 65536, 0, nil), "size1024", "long")
 		add(amCase(r, "inorder", 2500, 1000), "large")
@@ -481,6 +485,7 @@ func generate(o *cq.Opts, r *rand.Rand, add func(c12Case, ...string)) {
 		add(srCase(r))
 		add(siCase(r, true), "unbind")
 		add(siCase(r, false), "bindonly")
+		add(siRandCase(r), "unbind", "random")
 		for _, nm := range []int64{1, 2, 5, 10} {
 			add(ffCase(r, nm), fmt.Sprintf("media%d", nm))
 		}
